@@ -18,18 +18,15 @@ Section NThm.
   Notation NI := (NestInv Col tag0).
 
   Lemma NestInv_history : forall l a s pos done a' s',
-    NI a s done -> Forall (nested_contrib Col) l -> once Col l ->
-    (forall c, In c l -> forall c0, In c0 done -> apart Col c c0) ->
+    NI a s done -> Forall (nested_contrib Col) l ->
     aggregate_all ord cf fuel a s l pos = inl (a', s') -> NI a' s' (rev l ++ done).
   Proof.
-    induction l as [|[name [t k]] l IH]; intros a s pos done a' s' HI HF HO Hd H; cbn [aggregate_all] in H.
+    induction l as [|[name [t k]] l IH]; intros a s pos done a' s' HI HF H; cbn [aggregate_all] in H.
     - injection H as <- <-. exact HI.
-    - inversion HF as [|? ? [tr [ids Hc]] HF']; subst. inversion HO as [|? ? Hap HO']; subst.
+    - inversion HF as [|? ? [tr [ids Hc]] HF']; subst.
       destruct (aggregate ord cf fuel a s name t k) as [[a1 s1]| | |] eqn:E; try discriminate.
-      pose proof (NestInv_step ord ord_incl cf fuel Col Col_same tag0 Col_tag a s done (name, (t, k)) tr ids a1 s1 HI Hc
-                               (Hd _ (or_introl eq_refl)) E) as H1.
+      pose proof (NestInv_step ord ord_incl cf fuel Col Col_same tag0 Col_tag a s done (name, (t, k)) tr ids a1 s1 HI Hc E) as H1.
       cbn [rev]. rewrite <- app_assoc. cbn [app]. eapply IH; eauto.
-      intros c0 Hc0 c1 [<-|Hc1]; [apply apart_sym; now apply Hap | exact (Hd c0 (or_intror Hc0) c1 Hc1)].
   Qed.
 
   Lemma nested_owner_free l : Forall (nested_contrib Col) l -> Forall (fun c : contrib => owner_free (fst (snd c))) l.
@@ -51,14 +48,14 @@ Section NThm.
 
   (** * The merged requirement satisfies every contributor *)
   Theorem nested_upper_bound l a s :
-    Forall (nested_contrib Col) l -> once Col l ->
+    Forall (nested_contrib Col) l ->
     aggregate_all ord cf fuel (agg0 tag0) st0 l 0 = inl (a, s) ->
     forall c, In c l -> forall tr, UnfK (fst (snd c)) (snd (snd c)) tr ->
       exists merged tm, assoc (Aggregator.canonical a (fst c)) (imports a) = Some merged /\
                         UnfK (a_types a) merged tm /\ SubCM tm tr.
   Proof.
-    intros HF HO H c Hc tr Hu.
-    pose proof (NestInv_history l _ _ _ [] a s (NestInv_nil Col tag0) HF HO (fun _ _ _ X => False_ind _ X) H) as HI.
+    intros HF H c Hc tr Hu.
+    pose proof (NestInv_history l _ _ _ [] a s (NestInv_nil Col tag0) HF H) as HI.
     rewrite app_nil_r in HI. apply in_rev in Hc.
     destruct (nested_import_of a s (rev l) (fst c) HI (in_map fst _ _ Hc)) as [y [oid [e [d [ids [Ha [ID MO]]]]]]].
     exists (KInstance y), (XInst e). split; [exact Ha|]. split; [eapply IDen_unf; eauto|].
@@ -70,7 +67,7 @@ Section NThm.
 
   (** * One aggregation computes the recursive union *)
   Theorem nested_merge_is_union a s done c a' s' y :
-    NI a s done -> nested_contrib Col c -> (forall c0, In c0 done -> apart Col c c0) ->
+    NI a s done -> nested_contrib Col c ->
     (assoc (fst c) (a_imports a) = Some (KInstance y) \/
      (assoc (fst c) (a_imports a) = None /\ exists en, find_compat (fst c) (a_imports a) = Some (en, KInstance y))) ->
     aggregate ord cf fuel a s (fst c) (fst (snd c)) (snd (snd c)) = AOk (a', s') ->
@@ -85,20 +82,17 @@ Section NThm.
                   | None, None => assoc k em = None
                   end.
   Proof.
-    intros HI [tr [ids Hc]] Hap Hwhere H ta tb Uta Utb. destruct c as [name [t k]]. cbn [fst snd] in *.
+    intros HI [tr [ids Hc]] Hwhere H ta tb Uta Utb. destruct c as [name [t k]]. cbn [fst snd] in *.
     pose proof Hc as [Ct [OF [d [i [oid [eb [Ek [IDc [Etr Hoid]]]]]]]]]. cbn [fst snd] in *. subst k tr.
     assert (tb = XInst eb) as -> by (eapply UnfK_det; [exact Utb|eapply IDen_unf; eauto]).
     destruct (n_roots _ _ _ _ _ HI) as [rown [Hroots _]].
-    assert (Hfresh : fresh ids (core_of a s)).
-    { intros j Hj. cbn [c_remapped core_of]. destruct (rm_get (TInterface j) (a_remapped a)) as [v|] eqn:X; auto. exfalso.
-      destruct (n_ifkeys _ _ _ _ _ HI _ _ X) as [c0 [tr0 [ids0 [Hin0 [Hc0 Hj0]]]]]. exact (Hap c0 Hin0 _ _ _ _ Hc Hc0 j Hj Hj0). }
     assert (Hmerge : forall n0, In (n0, KInstance y) (a_imports a) -> forall cc,
                merge_item_kind ord cf fuel (KInstance y) t (KInstance i) (core_of a s) = AOk (tt, cc) ->
                exists ea em d0, ta = XInst ea /\ UnfK (c_types cc) (KInstance y) (XInst em) /\ tmerge ta (XInst eb) = Some (XInst em) /\
                                 wt d0 (XInst ea)).
     { intros n0 Hin cc Hm. destruct (Hroots n0 _ Hin) as [y0 [oidr [e [d0 [Ey [IDr _]]]]]]. injection Ey as <-.
       assert (ta = XInst e) as -> by (eapply UnfK_det; [exact Uta|eapply IDen_unf; eauto]).
-      destruct (nmerge_into ord cf fuel Col Col_same tag0 Col_tag a s done t i d oid eb ids y oidr e d0 (rown n0) cc HI Ct IDc Hfresh IDr Hm)
+      destruct (nmerge_into ord cf fuel Col Col_same tag0 Col_tag a s done t i d oid eb ids y oidr e d0 (rown n0) cc HI Ct IDc IDr Hm)
         as [em [idsr' [d1 [Htm [ID' _]]]]].
       exists e, em, (S d0). split; auto. split; [eapply IDen_unf; eauto|]. split; auto. eapply IDen_wt; eauto. }
     assert (Hfin : forall cc, (exists ea em d0, ta = XInst ea /\ UnfK (c_types cc) (KInstance y) (XInst em) /\
@@ -125,15 +119,15 @@ Section NThm.
 
   (** * Idempotence: a requirement the import already satisfies changes nothing; in particular the same requirement again *)
   Theorem nested_idempotent a s done c a' s' y :
-    NI a s done -> nested_contrib Col c -> (forall c0, In c0 done -> apart Col c c0) ->
+    NI a s done -> nested_contrib Col c ->
     (assoc (fst c) (a_imports a) = Some (KInstance y) \/
      (assoc (fst c) (a_imports a) = None /\ exists en, find_compat (fst c) (a_imports a) = Some (en, KInstance y))) ->
     aggregate ord cf fuel a s (fst c) (fst (snd c)) (snd (snd c)) = AOk (a', s') ->
     forall ta tb, UnfK (a_types a) (KInstance y) ta -> UnfK (fst (snd c)) (snd (snd c)) tb -> SubCM ta tb ->
       UnfK (a_types a') (KInstance y) ta.
   Proof.
-    intros HI Hnc Hap Hwhere H ta tb Uta Utb HS.
-    destruct (nested_merge_is_union a s done c a' s' y HI Hnc Hap Hwhere H ta tb Uta Utb) as [ea [eb [em [-> [-> [U' [Htm _]]]]]]].
+    intros HI Hnc Hwhere H ta tb Uta Utb HS.
+    destruct (nested_merge_is_union a s done c a' s' y HI Hnc Hwhere H ta tb Uta Utb) as [ea [eb [em [-> [-> [U' [Htm _]]]]]]].
     destruct Hnc as [tr [ids Hc]]. destruct (ncontrib_wt _ _ _ _ Hc) as [d1 W1].
     assert (tr = XInst eb) as -> by (eapply UnfK_det; [eapply ncontrib_unf; eauto|exact Utb]).
     destruct (n_roots _ _ _ _ _ HI) as [rown [Hroots _]].
@@ -150,28 +144,28 @@ Section NThm.
 
   (** * A conflict makes the aggregation fail *)
   Theorem nested_conflict_fails a s done c y :
-    NI a s done -> nested_contrib Col c -> (forall c0, In c0 done -> apart Col c c0) ->
+    NI a s done -> nested_contrib Col c ->
     (assoc (fst c) (a_imports a) = Some (KInstance y) \/
      (assoc (fst c) (a_imports a) = None /\ exists en, find_compat (fst c) (a_imports a) = Some (en, KInstance y))) ->
     forall ta tb, UnfK (a_types a) (KInstance y) ta -> UnfK (fst (snd c)) (snd (snd c)) tb -> tmerge ta tb = None ->
       forall r, aggregate ord cf fuel a s (fst c) (fst (snd c)) (snd (snd c)) <> AOk r.
   Proof.
-    intros HI Hnc Hap Hwhere ta tb Uta Utb Hnone [a' s'] H.
-    destruct (nested_merge_is_union a s done c a' s' y HI Hnc Hap Hwhere H ta tb Uta Utb) as [ea [eb [em [_ [_ [_ [Htm _]]]]]]].
+    intros HI Hnc Hwhere ta tb Uta Utb Hnone [a' s'] H.
+    destruct (nested_merge_is_union a s done c a' s' y HI Hnc Hwhere H ta tb Uta Utb) as [ea [eb [em [_ [_ [_ [Htm _]]]]]]].
     congruence.
   Qed.
 
   (** ... and in a successful history any two contributions of one track are mergeable (they have a common refinement:
       the import both lead to) *)
   Theorem nested_success_no_conflict l a s :
-    Forall (nested_contrib Col) l -> once Col l ->
+    Forall (nested_contrib Col) l ->
     aggregate_all ord cf fuel (agg0 tag0) st0 l 0 = inl (a, s) ->
     forall c1 c2, In c1 l -> In c2 l -> compat_spec_b (fst c1) (fst c2) = true ->
     forall tr1 tr2, UnfK (fst (snd c1)) (snd (snd c1)) tr1 -> UnfK (fst (snd c2)) (snd (snd c2)) tr2 ->
       exists tm, tmerge tr1 tr2 = Some tm.
   Proof.
-    intros HF HO H c1 c2 H1 H2 C tr1 tr2 U1 U2.
-    pose proof (NestInv_history l _ _ _ [] a s (NestInv_nil Col tag0) HF HO (fun _ _ _ X => False_ind _ X) H) as HI.
+    intros HF H c1 c2 H1 H2 C tr1 tr2 U1 U2.
+    pose proof (NestInv_history l _ _ _ [] a s (NestInv_nil Col tag0) HF H) as HI.
     rewrite app_nil_r in HI.
     assert (Hn1 : nested_contrib Col c1) by (rewrite Forall_forall in HF; auto).
     assert (Hn2 : nested_contrib Col c2) by (rewrite Forall_forall in HF; auto).
@@ -192,7 +186,7 @@ Section NThm.
 
   (** * Two successful orders of one multiset agree *)
   Theorem nested_order_indep l l' a s a' s' :
-    Forall (nested_contrib Col) l -> once Col l -> once Col l' -> Permutation l l' ->
+    Forall (nested_contrib Col) l -> Permutation l l' ->
     aggregate_all ord cf fuel (agg0 tag0) st0 l 0 = inl (a, s) ->
     aggregate_all ord cf fuel (agg0 tag0) st0 l' 0 = inl (a', s') ->
     forall n, In n (map fst l) ->
@@ -201,10 +195,10 @@ Section NThm.
                           assoc (Aggregator.canonical a' n) (imports a') = Some m' /\
                           UnfK (a_types a) m tm /\ UnfK (a_types a') m' tm' /\ SubCM tm tm' /\ SubCM tm' tm.
   Proof.
-    intros HF HO HO' P H H' n Hn.
+    intros HF P H H' n Hn.
     assert (HF' : Forall (nested_contrib Col) l') by (eapply Permutation_Forall; eauto).
-    pose proof (NestInv_history l _ _ _ [] a s (NestInv_nil Col tag0) HF HO (fun _ _ _ X => False_ind _ X) H) as HI.
-    pose proof (NestInv_history l' _ _ _ [] a' s' (NestInv_nil Col tag0) HF' HO' (fun _ _ _ X => False_ind _ X) H') as HI'.
+    pose proof (NestInv_history l _ _ _ [] a s (NestInv_nil Col tag0) HF H) as HI.
+    pose proof (NestInv_history l' _ _ _ [] a' s' (NestInv_nil Col tag0) HF' H') as HI'.
     rewrite app_nil_r in HI, HI'.
     assert (Hnames : forall m, In m (map fst l) <-> In m (map fst l')).
     { intros m. split; apply Permutation_in; [|apply Permutation_sym]; now apply Permutation_map. }
